@@ -19,6 +19,7 @@ LEAVES = [
     dict(op="Resize", oshape=[2, 2], ishape=[2, 3], ish=[2, 3], osh=[2, 2]),
     dict(op="Resize", oshape=[2, 3], ishape=[2, 4], ish=[2, 4], osh=[2, 3]),
     dict(op="Identity", shape=[3, 2], ish=[3, 2], osh=[3, 2]),
+    dict(op="User", shape=[2, 3], ish=[2, 3], osh=[2, 3]),       # a user-defined Linop subclass (vf.opcat._user_class)
 ]
 # extra operands for the ill-typed pairs only: shapes that coincide with the typed alphabet in size but not in shape, as a
 # prefix or suffix of it, or up to singleton axes (what a zip()-based or size-based comparison would let through)
